@@ -149,6 +149,19 @@ func sendPrologue(fn *ast.FuncDecl) (ok bool, turnstile bool) {
 	if show(l[0]) == "sb.valve.txWait(len(data))" {
 		return true, false
 	}
+	// the turnstile only for valves that limit: `if _, unlimited := sb.valve.(*UnlimitedValve); !unlimited { <turnstile> }`
+	// (an UnlimitedValve's txWait does nothing: skipping it changes nothing)
+	if is, isIf := l[0].(*ast.IfStmt); isIf && is.Init != nil && is.Else == nil &&
+		show(is.Init) == "_, unlimited := sb.valve.(*UnlimitedValve)" && show(is.Cond) == "!unlimited" {
+		uw := fnOf(mx, "UnlimitedValve.txWait")
+		if uw == nil || len(uw.Body.List) != 0 {
+			return false, false
+		}
+		l = append(append([]ast.Stmt{}, is.Body.List...), l[1:]...)
+		if len(is.Body.List) != 4 {
+			return false, false
+		}
+	}
 	if len(l) < 4 {
 		return false, false
 	}
